@@ -135,6 +135,22 @@ def delHeader (f : Frame) (k : Bytes) : Frame :=
 /-- `SetData(buf)` with a buffer other than the frame's own `Content` -/
 def setData (f : Frame) (d : Bytes) : Frame := { f with content := d, contentChanged := true }
 
+/-- a modification made between decode and encode (by the proxy or a stream filter) -/
+inductive Op where
+  | set (k v : Bytes)     -- header Set
+  | del (k : Bytes)       -- header Del
+  | body (d : Bytes)      -- SetData with a new buffer
+  | cls (c : Bytes)       -- the exported `Class` field assigned directly (does not mark the frame dirty)
+  deriving Repr
+
+def applyOp (f : Frame) : Op → Frame
+  | .set k v => setHeader f k v
+  | .del k => delHeader f k
+  | .body d => setData f d
+  | .cls c => { f with cls := c }
+
+def modify (ops : List Op) (f : Frame) : Frame := ops.foldl applyOp f
+
 /-! ### the two bolt v1 kinds -/
 namespace V1
 open Gen.C01Bolt
